@@ -216,6 +216,22 @@ def run(rep):
                 rep.ok("patterns", k, sample=pats[k])
             else:
                 rep.fail("patterns", k, "pattern identity does not follow from the response form: " + pats[k])
+    # ---- every way to start a transcript starts the same transcript
+    cbn = method(prog, CB, "new")
+    cbd = [b for b in trait_method_impls(prog, "std::default::Default", "default") if b.desc.get("self_ty") == ("adt", CB, ())]
+    if rep.anchor("ChallengeBuilder::new", cbn):
+        Sn = Session(prog)
+        vn = Sn.eval(cbn)
+        rep.fn(cbn)
+        for b in cbd:
+            rep.fn(b)
+            vd = Sn.eval(b)
+            if vn is not None and vd is not None and Sn.canon(vn) == Sn.canon(vd):
+                rep.ok("same-challenge", "ChallengeBuilder::new == ChallengeBuilder::default", sample="both public constructors yield the same initial hasher state")
+            else:
+                rep.fail("same-challenge", "ChallengeBuilder::new == ChallengeBuilder::default",
+                         "the two public constructors of ChallengeBuilder start different transcripts (new: %s ; default: %s): a prover and a verifier that each follow the API honestly derive different challenges and honest proofs are rejected" % (
+                             Sn.show(vn)[:120] if vn is not None else None, Sn.show(vd)[:120] if vd is not None else None), site=b.loc())
     # ---- the operators the documented patterns are written with: `challenge * scalar` and `challenge.to_scalar()`
     rep.rule("challenge-ops", "the documented patterns are written as `challenge * x` / `challenge.to_scalar() * x`: both denote the field product with the challenge scalar the responses were built with")
     mul = [b for b in trait_method_impls(prog, "std::ops::Mul", "mul") if b.desc.get("self_ty") == ("adt", CHAL, ())]
